@@ -258,7 +258,7 @@ def match_lin(atom, spec, lo=None, hi=None, eq=None, neq=None, extra_terms=0):
 def every_disjunct_has(dnf, pred):
     """each disjunct of the guard contains an atom satisfying pred (so the guard implies 'some such atom')"""
     if not dnf:
-        return True
+        return False   # an unsatisfiable guard means the analysis lost the path: fail closed rather than pass vacuously
     return all(any(pred(a) for a in c) for c in dnf)
 
 
@@ -362,7 +362,8 @@ def guard_has_is(g, keystr, variant, pol=True):
         if a == ('is', keystr, variant, pol):
             return True
         # a positive fact about another variant implies `is not variant`
-        if not pol and a[0] == 'is' and a[1] == keystr and a[3] and a[2] != variant:
+        from .sem import variant_family
+        if not pol and a[0] == 'is' and a[1] == keystr and a[3] and a[2] != variant and variant_family(a[2]) == variant_family(variant):
             return True
         return False
     return every_disjunct_has(g, p)
